@@ -25,6 +25,7 @@ CONSTANTS BugSliceFree   \* TRUE = pinned-tree behaviour of impls/slice.rs (defe
 
 Op(o, n, u, bs, a, b) == [op |-> o, name |-> n, unit |-> u, bytes |-> bs, a |-> a, b |-> b]
 OEnter(n)      == Op("enter", n, 0, <<>>, 0, 0)
+OEnterTag(n, nvalid) == Op("enter", n, 0, <<>>, nvalid, 0)   \* a tag field: nvalid = number of tag values a variant writes
 OExit          == Op("exit", "", 0, <<>>, 0, 0)
 ORaw(bs)       == Op("raw", "", 0, bs, 0, 0)
 OAlign(u)      == Op("align", "", u, <<>>, 0, 0)
@@ -40,6 +41,8 @@ UsizeT == Prim("usize")
 RECURSIVE Inner(_, _, _), WSeq(_, _, _, _), WFields(_, _, _, _)
 \* backend.write(name, value)
 W(name, T, v, ann) == <<OEnter(name)>> \o Inner(T, v, ann) \o <<OExit>>
+\* backend.write("Tag" | "tag", &tag): remembered as a tag site with its number of valid values
+WTag(name, T, v, nvalid) == <<OEnterTag(name, nvalid)>> \o Inner(T, v, -1) \o <<OExit>>
 \* backend.write("item", x) for each item
 WSeq(name, T, vs, i) ==
   IF i > Len(vs) THEN <<>> ELSE W(name, T, vs[i], -1) \o WSeq(name, T, vs, i + 1)
@@ -79,15 +82,15 @@ Inner(T, v, ann) ==
          IF IsZC(T.elem) THEN SerZero(T, v) ELSE WSeq("item", T.elem, v, 1)
     [] T.k = "tuple" -> SerZero(T, v)
     [] T.k = "option" ->
-         IF v[1] = 0 THEN W("Tag", U8, <<0>>, -1)
-         ELSE W("Tag", U8, <<1>>, -1) \o W("Some", T.elem, v[2], -1)
+         IF v[1] = 0 THEN WTag("Tag", U8, <<0>>, 2)
+         ELSE WTag("Tag", U8, <<1>>, 2) \o W("Some", T.elem, v[2], -1)
     [] T.k = "bound" ->
-         IF v[1] = 0 THEN W("Tag", U8, <<0>>, -1)
-         ELSE W("Tag", U8, <<v[1]>>, -1)
+         IF v[1] = 0 THEN WTag("Tag", U8, <<0>>, 3)
+         ELSE WTag("Tag", U8, <<v[1]>>, 3)
               \o W(IF v[1] = 1 THEN "Included" ELSE "Excluded", T.elem, v[2], -1)
     [] T.k = "cflow" ->
-         IF v[1] = 0 THEN W("Tag", U8, <<0>>, -1) \o W("Break", T.b, v[2], -1)
-         ELSE W("Tag", U8, <<1>>, -1) \o W("Continue", T.c, v[2], -1)
+         IF v[1] = 0 THEN WTag("Tag", U8, <<0>>, 2) \o W("Break", T.b, v[2], -1)
+         ELSE WTag("Tag", U8, <<1>>, 2) \o W("Continue", T.c, v[2], -1)
     [] T.k = "range" ->
          CASE T.rk = "Range" -> W("start", T.elem, v[1], -1) \o W("end", T.elem, v[2], -1)
            [] T.rk = "RangeFrom" -> W("start", T.elem, v[1], -1)
@@ -104,7 +107,7 @@ Inner(T, v, ann) ==
     [] T.k = "enum" ->
          IF T.zc THEN SerZero(T, v)
          ELSE LET var == T.variants[v[1] + 1]
-              IN W("tag", UsizeT, NE(v[1], UsizeBytes), -1)
+              IN WTag("tag", UsizeT, NE(v[1], UsizeBytes), Len(T.variants))
                  \o WFields(var.fields, Tail(v), IF var.vk = "tuple" THEN "v" ELSE "", 1)
 
 U64T == Prim("u64")
@@ -125,7 +128,8 @@ BodyProgram(T, v, ann) == Inner(T, v, ann)
 
 ---------------------------------------------------------------------------
 (* Schema rows (SchemaWriter).                                             *)
-Row(field, off, size, align) == [field |-> field, off |-> off, size |-> size, align |-> align]
+Row(field, off, size, align) == [field |-> field, off |-> off, size |-> size, align |-> align, nv |-> 0]
+TagRow(field, off, size, nv) == [field |-> field, off |-> off, size |-> size, align |-> 0, nv |-> nv]
 InsertAt(s, i, e) == SubSeq(s, 1, i - 1) \o <<e>> \o SubSeq(s, i, Len(s))
 
 ---------------------------------------------------------------------------
@@ -232,14 +236,14 @@ StdError ==   \* write() returned another error
 DoEnter ==
   /\ Running /\ ~inwrite /\ CurOp.op = "enter"
   /\ path' = Append(path, CurOp.name)
-  /\ starts' = Append(starts, <<pos, Len(rows)>>)
+  /\ starts' = Append(starts, <<pos, Len(rows), CurOp.a>>)
   /\ pc' = pc + 1
   /\ UNCHANGED <<prog, pos0, pos, out, status, detail, padleft, cur, inwrite, rows, fake, src, faults, ncalls, fault>>
 
 DoExit ==
   /\ Running /\ ~inwrite /\ CurOp.op = "exit"
   /\ LET st == starts[Len(starts)]
-     IN rows' = InsertAt(rows, st[2] + 1, Row(path, st[1], pos - st[1], 0))
+     IN rows' = InsertAt(rows, st[2] + 1, TagRow(path, st[1], pos - st[1], st[3]))
   /\ path' = SubSeq(path, 1, Len(path) - 1)
   /\ starts' = SubSeq(starts, 1, Len(starts) - 1)
   /\ pc' = pc + 1
